@@ -10,63 +10,104 @@ theorem acceptStep_res (S : Spec) (st : AS) (pid : Nat) (o : Op) (r r' : Bool) :
     acceptStep S st ⟨pid, o, r⟩ = acceptStep S st ⟨pid, o, r'⟩ := by
   cases o <;> rfl
 
+/-- the paths a step writes to satisfy `P`, and a rename targets a final name -/
+def touchedOK (P : Path → Prop) : Op → Prop
+  | .creat p => P p
+  | .append p _ => P p
+  | .close p => P p
+  | .rename a b => P a ∧ b.tmp = none
+  | .exec _ outs => ∀ x ∈ outs, P x
+  | _ => True
+
+def isRmrf : Op → Bool
+  | .rmrf _ => true
+  | _ => false
+
+theorem touchedOK_outs {P : Path → Prop} {o : Op} (h : touchedOK P o) : ∀ x ∈ execOutsOf o, P x := by
+  cases o <;> simp [execOutsOf] <;> exact h
+
 /-- all traces of the program from discipline state `st` are accepted, every file name it asks a compiler
     to produce satisfies `P`, and when the program returns `a` in state `st'` then `Q a st'` -/
-def Safe (S : Spec) (pid : Nat) (P : Path → Prop) {α : Type} : Prog α → AS → (α → AS → Prop) → Prop
+def Safe (S : Spec) (pid : Nat) (P : Path → Prop) (Rm : Prop) {α : Type} : Prog α → AS → (α → AS → Prop) → Prop
   | .ret a, st, Q => Q a st
   | .fail, _, _ => True
-  | .act o k, st, Q => (∀ x ∈ execOutsOf o, P x) ∧
-      ∃ st', acceptStep S st ⟨pid, o, true⟩ = some st' ∧ ∀ r, Safe S pid P (k r) st' Q
+  | .act o k, st, Q => touchedOK P o ∧ (isRmrf o = true → Rm) ∧
+      ∃ st', acceptStep S st ⟨pid, o, true⟩ = some st' ∧ ∀ r, Safe S pid P Rm (k r) st' Q
 
-theorem safe_bind {S : Spec} {pid : Nat} {P : Path → Prop} {α β : Type} (m : Prog α) (f : α → Prog β) (st : AS)
+theorem safe_bind {S : Spec} {pid : Nat} {P : Path → Prop} {Rm : Prop} {α β : Type} (m : Prog α) (f : α → Prog β) (st : AS)
     (Q : α → AS → Prop) (R : β → AS → Prop)
-    (hm : Safe S pid P m st Q) (hf : ∀ a st', Q a st' → Safe S pid P (f a) st' R) :
-    Safe S pid P (m >>= f) st R := by
+    (hm : Safe S pid P Rm m st Q) (hf : ∀ a st', Q a st' → Safe S pid P Rm (f a) st' R) :
+    Safe S pid P Rm (m >>= f) st R := by
   induction m generalizing st with
   | ret a => exact hf a st hm
   | fail => trivial
   | act o k ih =>
-    obtain ⟨hP, st', h1, h2⟩ := hm
-    exact ⟨hP, st', h1, fun r => ih r st' (h2 r)⟩
+    obtain ⟨hP, hR, st', h1, h2⟩ := hm
+    exact ⟨hP, hR, st', h1, fun r => ih r st' (h2 r)⟩
 
-theorem safe_mono {S : Spec} {pid : Nat} {P : Path → Prop} {α : Type} (m : Prog α) (st : AS) (Q R : α → AS → Prop)
-    (hm : Safe S pid P m st Q) (h : ∀ a st', Q a st' → R a st') : Safe S pid P m st R := by
+theorem safe_mono {S : Spec} {pid : Nat} {P : Path → Prop} {Rm : Prop} {α : Type} (m : Prog α) (st : AS) (Q R : α → AS → Prop)
+    (hm : Safe S pid P Rm m st Q) (h : ∀ a st', Q a st' → R a st') : Safe S pid P Rm m st R := by
   induction m generalizing st with
   | ret a => exact h a st hm
   | fail => trivial
   | act o k ih =>
-    obtain ⟨hP, st', h1, h2⟩ := hm
-    exact ⟨hP, st', h1, fun r => ih r st' (h2 r)⟩
+    obtain ⟨hP, hR, st', h1, h2⟩ := hm
+    exact ⟨hP, hR, st', h1, fun r => ih r st' (h2 r)⟩
 
-theorem safe_trace {S : Spec} {pid : Nat} {P : Path → Prop} {α : Type} (m : Prog α) (st : AS) (Q : α → AS → Prop)
-    (hm : Safe S pid P m st Q) (t : Trace) (ht : IsTrace pid m t) : (acceptsFrom S st t).isSome = true := by
+theorem safe_trace {S : Spec} {pid : Nat} {P : Path → Prop} {Rm : Prop} {α : Type} (m : Prog α) (st : AS) (Q : α → AS → Prop)
+    (hm : Safe S pid P Rm m st Q) (t : Trace) (ht : IsTrace pid m t) : (acceptsFrom S st t).isSome = true := by
   induction ht generalizing st with
   | nil m => simp [acceptsFrom]
   | act o k r t _ ih =>
-    obtain ⟨_, st', h1, h2⟩ := hm
+    obtain ⟨_, _, st', h1, h2⟩ := hm
     simp only [acceptsFrom]
     rw [acceptStep_res S st pid o r true, h1]
     exact ih st' (h2 r)
 
 
-theorem safe_outs {S : Spec} {pid : Nat} {P : Path → Prop} {α : Type} (m : Prog α) (st : AS) (Q : α → AS → Prop)
-    (hm : Safe S pid P m st Q) (t : Trace) (ht : IsTrace pid m t) : ∀ e ∈ t, ∀ x ∈ execOutsOf e.op, P x := by
+theorem safe_outs {S : Spec} {pid : Nat} {P : Path → Prop} {Rm : Prop} {α : Type} (m : Prog α) (st : AS) (Q : α → AS → Prop)
+    (hm : Safe S pid P Rm m st Q) (t : Trace) (ht : IsTrace pid m t) : ∀ e ∈ t, ∀ x ∈ execOutsOf e.op, P x := by
   induction ht generalizing st with
   | nil m => intro e he; cases he
   | act o k r t _ ih =>
-    obtain ⟨hP, st', _, h2⟩ := hm
+    obtain ⟨hP, _, st', _, h2⟩ := hm
     intro e he
     rcases List.mem_cons.1 he with rfl | he'
-    · exact hP
+    · exact touchedOK_outs hP
     · exact ih st' (h2 r) e he'
+
+/-- what every step of the program guarantees, whatever the answers (no bookkeeping needed to state it) -/
+def Guar (G : Op → Prop) {α : Type} : Prog α → Prop
+  | .ret _ => True
+  | .fail => True
+  | .act o k => G o ∧ ∀ r, Guar G (k r)
+
+theorem safe_guar {S : Spec} {pid : Nat} {P : Path → Prop} {Rm : Prop} {α : Type} (m : Prog α) (st : AS) (Q : α → AS → Prop)
+    (hm : Safe S pid P Rm m st Q) : Guar (fun o => touchedOK P o ∧ (isRmrf o = true → Rm)) m := by
+  induction m generalizing st with
+  | ret a => trivial
+  | fail => trivial
+  | act o k ih =>
+    obtain ⟨hP, hR, st', _, h2⟩ := hm
+    exact ⟨⟨hP, hR⟩, fun r => ih r st' (h2 r)⟩
+
+theorem guar_trace {G : Op → Prop} {pid : Nat} {α : Type} (m : Prog α) (hm : Guar G m) (t : Trace) (ht : IsTrace pid m t) :
+    ∀ e ∈ t, G e.op := by
+  induction ht with
+  | nil m => intro e he; cases he
+  | act o k r t _ ih =>
+    intro e he
+    rcases List.mem_cons.1 he with rfl | he'
+    · exact hm.1
+    · exact ih (hm.2 r) e he'
 
 /-! ### acceptance of the single steps -/
 section steps
-variable {S : Spec} {pid : Nat} {P : Path → Prop} {st : AS}
+variable {S : Spec} {pid : Nat} {P : Path → Prop} {Rm : Prop} {st : AS}
 
 theorem safe_op {o : Op} {st' : AS} (h : acceptStep S st ⟨pid, o, true⟩ = some st')
-    (hP : ∀ x ∈ execOutsOf o, P x := by simp [execOutsOf]) :
-    Safe S pid P (op o) st (fun _ s => s = st') := ⟨hP, st', h, fun _ => rfl⟩
+    (hP : touchedOK P o := by simp [touchedOK]) (hR : isRmrf o = true → Rm := by simp [isRmrf]) :
+    Safe S pid P Rm (op o) st (fun _ s => s = st') := ⟨hP, hR, st', h, fun _ => rfl⟩
 
 theorem acc_stat {p : Path} (hp : p.tmp = none) : acceptStep S st ⟨pid, .stat p, true⟩ = some st := by
   simp [acceptStep, Path.isTemp, hp]
@@ -115,7 +156,7 @@ end steps
 
 /-! ### the procedures -/
 section procs
-variable {S : Spec} {pid : Nat} {P : Path → Prop}
+variable {S : Spec} {pid : Nat} {P : Path → Prop} {Rm : Prop}
 
 theorem withTok_isTemp (p : Path) (tok : String) : (p.withTok tok).isTemp = true := rfl
 theorem withTok_final (p : Path) (tok : String) (hp : p.tmp = none) : (p.withTok tok).final = p := by
@@ -123,40 +164,40 @@ theorem withTok_final (p : Path) (tok : String) (hp : p.tmp = none) : (p.withTok
 theorem withTok_dir (p : Path) (tok : String) : (p.withTok tok).dir = p.dir := rfl
 
 theorem safe_ioExists (st : AS) {p : Path} (hp : p.tmp = none) :
-    Safe S pid P (ioExists p) st (fun _ s => s = st) := safe_op (acc_openRead hp)
+    Safe S pid P Rm (ioExists p) st (fun _ s => s = st) := safe_op (acc_openRead hp)
 theorem safe_isFile (st : AS) {p : Path} (hp : p.tmp = none) :
-    Safe S pid P (isFile p) st (fun _ s => s = st) := safe_op (acc_stat hp)
+    Safe S pid P Rm (isFile p) st (fun _ s => s = st) := safe_op (acc_stat hp)
 
 theorem safe_readFile (st : AS) {p : Path} (hp : p.tmp = none) :
-    Safe S pid P (readFile p) st (fun _ s => s = st) := by
-  refine ⟨by simp [execOutsOf], st, acc_openRead hp, fun r => ?_⟩
+    Safe S pid P Rm (readFile p) st (fun _ s => s = st) := by
+  refine ⟨by simp [touchedOK], by simp [isRmrf], st, acc_openRead hp, fun r => ?_⟩
   cases r
   · trivial
-  · exact ⟨by simp [execOutsOf], st, acc_stat hp, fun _ => rfl⟩
+  · exact ⟨by simp [touchedOK], by simp [isRmrf], st, acc_stat hp, fun _ => rfl⟩
 
-theorem safe_mkpath (st : AS) (d : String) : Safe S pid P (mkpath d) st (fun _ s => s = st) := by
-  refine ⟨by simp [execOutsOf], st, acc_statDir, fun r => ?_⟩
+theorem safe_mkpath (st : AS) (d : String) : Safe S pid P Rm (mkpath d) st (fun _ s => s = st) := by
+  refine ⟨by simp [touchedOK], by simp [isRmrf], st, acc_statDir, fun r => ?_⟩
   cases r
-  · exact ⟨by simp [execOutsOf], st, acc_mkdir, fun _ => rfl⟩
+  · exact ⟨by simp [touchedOK], by simp [isRmrf], st, acc_mkdir, fun _ => rfl⟩
   · rfl
 
 theorem safe_sync_final (st : AS) {p : Path} (hp : p.tmp = none) :
-    Safe S pid P (sync p) st (fun _ s => s = st) :=
-  ⟨by simp [execOutsOf], st, acc_openRead hp, fun _ => ⟨by simp [execOutsOf], st, acc_fsync hp, fun _ => ⟨by simp [execOutsOf], st, acc_fsyncDir, fun _ => rfl⟩⟩⟩
+    Safe S pid P Rm (sync p) st (fun _ s => s = st) :=
+  ⟨by simp [touchedOK], by simp [isRmrf], st, acc_openRead hp, fun _ => ⟨by simp [touchedOK], by simp [isRmrf], st, acc_fsync hp, fun _ => ⟨by simp [touchedOK], by simp [isRmrf], st, acc_fsyncDir, fun _ => rfl⟩⟩⟩
 
 theorem safe_sync_closed (st : AS) {p : Path} {bs : Bytes} (h : st p = some (pid, .closedW bs)) :
-    Safe S pid P (sync p) st (fun _ s => s = st) :=
-  ⟨by simp [execOutsOf], st, acc_openRead_closed h, fun _ => ⟨by simp [execOutsOf], st, acc_fsync_closed h, fun _ => ⟨by simp [execOutsOf], st, acc_fsyncDir, fun _ => rfl⟩⟩⟩
+    Safe S pid P Rm (sync p) st (fun _ s => s = st) :=
+  ⟨by simp [touchedOK], by simp [isRmrf], st, acc_openRead_closed h, fun _ => ⟨by simp [touchedOK], by simp [isRmrf], st, acc_fsync_closed h, fun _ => ⟨by simp [touchedOK], by simp [isRmrf], st, acc_fsyncDir, fun _ => rfl⟩⟩⟩
 
 theorem AS.set_set (st : AS) (p : Path) (v w : Nat × TS) : (st.set p v).set p w = st.set p w := by
   funext q; simp only [AS.set]; split <;> rfl
 
-theorem safe_ioWrite (st : AS) {t : Path} (c : Bytes) (ht : t.isTemp = true) (hn : st t = none) :
-    Safe S pid P (ioWrite t c) st (fun _ s => s = st.set t (pid, .closedW c)) := by
+theorem safe_ioWrite (st : AS) {t : Path} (c : Bytes) (ht : t.isTemp = true) (hn : st t = none) (hPt : P t) :
+    Safe S pid P Rm (ioWrite t c) st (fun _ s => s = st.set t (pid, .closedW c)) := by
   unfold ioWrite
   refine safe_bind _ _ _ _ _ (safe_mkpath st t.dir) ?_
   intro _ s hs; subst s
-  refine safe_bind _ _ _ _ _ (safe_op (acc_creat ht hn)) ?_
+  refine safe_bind _ _ _ _ _ (safe_op (acc_creat ht hn) hPt) ?_
   intro ok s hs; subst s
   cases ok
   · trivial
@@ -169,13 +210,13 @@ theorem safe_ioWrite (st : AS) {t : Path} (c : Bytes) (ht : t.isTemp = true) (hn
         simp only [List.isEmpty_nil, if_true]
         rfl
       · simp only [hc, if_false]
-        refine safe_bind _ _ _ _ _ (safe_op (acc_append h0)) ?_
+        refine safe_bind _ _ _ _ _ (safe_op (acc_append h0) hPt) ?_
         intro _ s hs; subst s
         show _ = _
         rw [AS.set_set, List.nil_append]
     · intro _ s hs; subst s
       have h1 : (st.set t (pid, .opened c)) t = some (pid, .opened c) := AS.set_same ..
-      refine safe_bind _ _ _ _ _ (safe_op (acc_close h1)) ?_
+      refine safe_bind _ _ _ _ _ (safe_op (acc_close h1) hPt) ?_
       intro _ s hs; subst s
       have h2 : ((st.set t (pid, .opened c)).set t (pid, .closedW c)) t = some (pid, .closedW c) := AS.set_same ..
       refine safe_mono _ _ _ _ (safe_sync_closed _ h2) ?_
@@ -197,28 +238,28 @@ theorem OnlyAt.left {a b : AS} {t1 t2 : Path} (h : OnlyAt a b t1) : OnlyAt2 a b 
 theorem OnlyAt.right {a b : AS} {t1 t2 : Path} (h : OnlyAt a b t2) : OnlyAt2 a b t1 t2 := fun q _ h2 => h q h2
 
 theorem safe_moveStaged (st : AS) {t p : Path} (ht : t.isTemp = true) (hp : p.tmp = none) (hf : t.final = p)
-    (hm : Movable S pid st t p) : Safe S pid P (moveStaged t p) st (fun _ s => OnlyAt st s t) := by
+    (hm : Movable S pid st t p) (hPt : P t) : Safe S pid P Rm (moveStaged t p) st (fun _ s => OnlyAt st s t) := by
   have hown : ∃ ts, st t = some (pid, ts) := by
     rcases hm with ⟨bs, h, _⟩ | h
     · exact ⟨_, h⟩
     · exact ⟨_, h⟩
   obtain ⟨ts, hts⟩ := hown
-  refine ⟨by simp [execOutsOf], st, acc_stat_own hts, fun e => ?_⟩
+  refine ⟨by simp [touchedOK], by simp [isRmrf], st, acc_stat_own hts, fun e => ?_⟩
   cases e
   · exact OnlyAt.refl st t
-  · refine ⟨by simp [execOutsOf], _, acc_rename ht hp hf hm, fun ok => ?_⟩
+  · refine ⟨⟨hPt, hp⟩, by simp [isRmrf], _, acc_rename ht hp hf hm, fun ok => ?_⟩
     cases ok
-    · refine ⟨by simp [execOutsOf], _, acc_stat hp, fun e2 => ?_⟩
+    · refine ⟨by simp [touchedOK], by simp [isRmrf], _, acc_stat hp, fun e2 => ?_⟩
       cases e2
       · trivial
       · exact OnlyAt.set st t _
     · exact OnlyAt.set st t _
 
 theorem safe_stageFile (st : AS) (p : Path) (tok : String) (skip : Bool) (prod : Path → Prog Bool)
-    (hp : p.tmp = none)
-    (hprod : Safe S pid P (prod (p.withTok tok)) st
+    (hp : p.tmp = none) (hPt : P (p.withTok tok))
+    (hprod : Safe S pid P Rm (prod (p.withTok tok)) st
       (fun ok s => OnlyAt st s (p.withTok tok) ∧ (ok = true → Movable S pid s (p.withTok tok) p))) :
-    Safe S pid P (stageFile p tok skip prod) st (fun _ s => OnlyAt st s (p.withTok tok)) := by
+    Safe S pid P Rm (stageFile p tok skip prod) st (fun _ s => OnlyAt st s (p.withTok tok)) := by
   unfold stageFile
   refine safe_bind _ _ _ _ _ (safe_mkpath st p.dir) ?_
   intro _ s hs; subst s
@@ -233,7 +274,7 @@ theorem safe_stageFile (st : AS) (p : Path) (tok : String) (skip : Bool) (prod :
     cases ok
     · exact h1
     · simp only [if_true]
-      refine safe_mono _ _ _ _ (safe_moveStaged s (withTok_isTemp p tok) hp (withTok_final p tok hp) (h2 rfl)) ?_
+      refine safe_mono _ _ _ _ (safe_moveStaged s (withTok_isTemp p tok) hp (withTok_final p tok hp) (h2 rfl) hPt) ?_
       intro _ s' h3
       exact h1.trans h3
 
@@ -242,11 +283,11 @@ theorem Movable.of_eq {st s : AS} {t p : Path} (h : s t = st t) (hm : Movable S 
 
 theorem safe_stageFiles2 (st : AS) (p1 : Path) (tok1 : String) (p2 : Path) (tok2 : String) (skip : Bool)
     (prod : Path → Path → Prog Bool) (hp1 : p1.tmp = none) (hp2 : p2.tmp = none)
-    (hne : p1.withTok tok1 ≠ p2.withTok tok2)
-    (hprod : Safe S pid P (prod (p1.withTok tok1) (p2.withTok tok2)) st
+    (hne : p1.withTok tok1 ≠ p2.withTok tok2) (hPt1 : P (p1.withTok tok1)) (hPt2 : P (p2.withTok tok2))
+    (hprod : Safe S pid P Rm (prod (p1.withTok tok1) (p2.withTok tok2)) st
       (fun ok s => OnlyAt2 st s (p1.withTok tok1) (p2.withTok tok2) ∧
         (ok = true → Movable S pid s (p1.withTok tok1) p1 ∧ Movable S pid s (p2.withTok tok2) p2))) :
-    Safe S pid P (stageFiles2 p1 tok1 p2 tok2 skip prod) st
+    Safe S pid P Rm (stageFiles2 p1 tok1 p2 tok2 skip prod) st
       (fun _ s => OnlyAt2 st s (p1.withTok tok1) (p2.withTok tok2)) := by
   unfold stageFiles2
   refine safe_bind _ _ _ _ _ (safe_mkpath st p1.dir) ?_
@@ -267,19 +308,19 @@ theorem safe_stageFiles2 (st : AS) (p1 : Path) (tok1 : String) (p2 : Path) (tok2
     · exact h1
     · simp only [if_true]
       obtain ⟨m1, m2⟩ := h2 rfl
-      refine safe_bind _ _ _ _ _ (safe_moveStaged s (withTok_isTemp p1 tok1) hp1 (withTok_final p1 tok1 hp1) m1) ?_
+      refine safe_bind _ _ _ _ _ (safe_moveStaged s (withTok_isTemp p1 tok1) hp1 (withTok_final p1 tok1 hp1) m1 hPt1) ?_
       intro _ s' h3
       have m2' : Movable S pid s' (p2.withTok tok2) p2 := Movable.of_eq (h3 _ hne.symm) m2
-      refine safe_mono _ _ _ _ (safe_moveStaged s' (withTok_isTemp p2 tok2) hp2 (withTok_final p2 tok2 hp2) m2') ?_
+      refine safe_mono _ _ _ _ (safe_moveStaged s' (withTok_isTemp p2 tok2) hp2 (withTok_final p2 tok2 hp2) m2' hPt2) ?_
       intro _ s'' h4
       exact h1.trans (h3.left.trans h4.right)
 
 theorem safe_writeProducer (st : AS) (p : Path) (tok : String) (c : Bytes) (hv : S.valid p c = true)
-    (hn : st (p.withTok tok) = none) :
-    Safe S pid P (writeProducer c (p.withTok tok)) st
+    (hn : st (p.withTok tok) = none) (hPt : P (p.withTok tok)) :
+    Safe S pid P Rm (writeProducer c (p.withTok tok)) st
       (fun ok s => OnlyAt st s (p.withTok tok) ∧ (ok = true → Movable S pid s (p.withTok tok) p)) := by
   unfold writeProducer
-  refine safe_bind _ _ _ _ _ (safe_ioWrite st c (withTok_isTemp p tok) hn) ?_
+  refine safe_bind _ _ _ _ _ (safe_ioWrite st c (withTok_isTemp p tok) hn hPt) ?_
   intro _ s hs; subst s
   exact ⟨OnlyAt.set st _ _, fun _ => Or.inl ⟨c, AS.set_same .., hv⟩⟩
 
@@ -358,12 +399,12 @@ theorem o_final (b : String) : (c.o b).tmp = none := rfl
 /-- a staged write at call site `n` -/
 theorem safe_stageWrite (hc : CfgOK S c) (st : AS) (n : Nat) (p : Path) (skip : Bool) (content : Bytes)
     (hp : p.tmp = none) (hv : S.valid p content = true) (hf : FreshFrom c st n) :
-    Safe S pid P (stageFile p (c.toks n) skip (writeProducer content)) st (fun _ s => FreshFrom c s (n + 1)) := by
-  refine safe_mono _ _ _ _ (safe_stageFile st p _ skip _ hp (safe_writeProducer st p _ content hv (hf.at p n (Nat.le_refl _)))) ?_
+    Safe S pid (IsTok c) Rm (stageFile p (c.toks n) skip (writeProducer content)) st (fun _ s => FreshFrom c s (n + 1)) := by
+  refine safe_mono _ _ _ _ (safe_stageFile st p _ skip _ hp ⟨n, rfl⟩ (safe_writeProducer st p _ content hv (hf.at p n (Nat.le_refl _)) ⟨n, rfl⟩)) ?_
   intro _ s ho
   exact hf.step hc.toks_inj p n (n + 1) (Nat.lt_succ_self _) (Nat.le_succ _) ho
 
-theorem safe_applyDependencyHash (st : AS) : Safe S pid P (applyDependencyHash c) st (fun _ s => s = st) := by
+theorem safe_applyDependencyHash (st : AS) : Safe S pid P Rm (applyDependencyHash c) st (fun _ s => s = st) := by
   unfold applyDependencyHash
   refine safe_bind _ _ _ _ _ (safe_ioExists st (k_final _)) ?_
   intro e s hs; subst s
@@ -374,7 +415,7 @@ theorem safe_applyDependencyHash (st : AS) : Safe S pid P (applyDependencyHash c
 theorem safe_cacheFile (hc : CfgOK S c) (st : AS) (n : Nat) (dst : Path) (content : Bytes) (src : Option Path)
     (hp : dst.tmp = none) (hv : S.valid dst content = true) (hsrc : ∀ s, src = some s → s.tmp = none)
     (hf : FreshFrom c st n) :
-    Safe S pid P (cacheFile dst (c.toks n) content src) st (fun _ s => FreshFrom c s (n + 1)) := by
+    Safe S pid (IsTok c) Rm (cacheFile dst (c.toks n) content src) st (fun _ s => FreshFrom c s (n + 1)) := by
   unfold cacheFile
   refine safe_bind _ _ _ _ _ (safe_isFile st hp) ?_
   intro e s hs; subst s
@@ -404,7 +445,7 @@ theorem acc_exec2 {st : AS} {src t1 t2 : Path} (hs : src.tmp = none) (ht1 : t1.i
 
 
 theorem safe_compilerVendor (hc : CfgOK S c) (st : AS) (n : Nat) (hf : FreshFrom c st n) :
-    Safe S pid (IsTok c) (compilerVendor c n) st (fun _ s => FreshFrom c s (n + 4)) := by
+    Safe S pid (IsTok c) Rm (compilerVendor c n) st (fun _ s => FreshFrom c s (n + 4)) := by
   unfold compilerVendor
   refine safe_bind _ _ _ _ _ (safe_cacheFile hc st n _ c.vsrc none (v_final _) hc.v_vsrc (by intro s h; cases h) hf) ?_
   intro _ s1 hf1
@@ -423,7 +464,7 @@ theorem safe_compilerVendor (hc : CfgOK S c) (st : AS) (n : Nat) (hf : FreshFrom
     have hne : (c.v "binary").withTok (c.toks (n + 1)) ≠ (c.v "build.log").withTok (c.toks (n + 2)) :=
       withTok_ne hc.toks_inj _ _ _ _ (by omega)
     refine safe_bind _ _ _ (fun _ s => FreshFrom c s (n + 3)) _ ?_ ?_
-    · refine safe_mono _ _ _ _ (safe_stageFiles2 s1 _ _ _ _ true _ (v_final _) (v_final _) hne ?_) ?_
+    · refine safe_mono _ _ _ _ (safe_stageFiles2 s1 _ _ _ _ true _ (v_final _) (v_final _) hne ⟨_, rfl⟩ ⟨_, rfl⟩ ?_) ?_
       · -- the producer: one compiler run, then the test that the binary exists
         have hacc := acc_exec2 (S := S) (pid := pid) (st := s1) (src := c.v "findCompilerVendor.cpp")
           (t1 := (c.v "binary").withTok (c.toks (n + 1))) (t2 := (c.v "build.log").withTok (c.toks (n + 2)))
@@ -455,7 +496,7 @@ theorem safe_compilerVendor (hc : CfgOK S c) (st : AS) (n : Nat) (hf : FreshFrom
     exact hf1.mono (by omega)
 
 theorem safe_ompCompilerFlag (hc : CfgOK S c) (st : AS) (n : Nat) (hf : FreshFrom c st n) :
-    Safe S pid (IsTok c) (ompCompilerFlag c n) st (fun _ s => FreshFrom c s (n + 3)) := by
+    Safe S pid (IsTok c) Rm (ompCompilerFlag c n) st (fun _ s => FreshFrom c s (n + 3)) := by
   unfold ompCompilerFlag
   refine safe_bind _ _ _ _ _ (safe_cacheFile hc st n _ c.osrc none (o_final _) hc.v_osrc (by intro s h; cases h) hf) ?_
   intro _ s1 hf1
@@ -464,7 +505,7 @@ theorem safe_ompCompilerFlag (hc : CfgOK S c) (st : AS) (n : Nat) (hf : FreshFro
   have hne : (c.o "binary").withTok (c.toks (n + 1)) ≠ (c.o "output").withTok (c.toks (n + 2)) :=
     withTok_ne hc.toks_inj _ _ _ _ (by omega)
   refine safe_bind _ _ _ (fun _ s => FreshFrom c s (n + 3)) _ ?_ ?_
-  · refine safe_mono _ _ _ _ (safe_stageFiles2 s1 _ _ _ _ true _ (o_final _) (o_final _) hne ?_) ?_
+  · refine safe_mono _ _ _ _ (safe_stageFiles2 s1 _ _ _ _ true _ (o_final _) (o_final _) hne ⟨_, rfl⟩ ⟨_, rfl⟩ ?_) ?_
     · have hacc := acc_exec1 (S := S) (pid := pid) (st := s1) (src := c.o "compilerSupportsOpenMP.cpp")
         (t := (c.o "binary").withTok (c.toks (n + 1))) (o_final _) rfl hn1 rfl
         (by rw [withTok_final _ _ (o_final _)]; exact hc.r_obin)
@@ -472,7 +513,7 @@ theorem safe_ompCompilerFlag (hc : CfgOK S c) (st : AS) (n : Nat) (hf : FreshFro
       intro ok s hs; subst s
       have hn2' : (s1.set ((c.o "binary").withTok (c.toks (n + 1))) (pid, .compiled)) ((c.o "output").withTok (c.toks (n + 2))) = none := by
         rw [AS.set_ne _ _ _ _ hne.symm]; exact hn2
-      refine safe_bind _ _ _ _ _ (safe_ioWrite _ (if ok = true then c.oout else c.ooutNA) rfl hn2') ?_
+      refine safe_bind _ _ _ _ _ (safe_ioWrite _ (if ok = true then c.oout else c.ooutNA) rfl hn2' ⟨_, rfl⟩) ?_
       intro _ s hs; subst s
       refine ⟨?_, fun _ => ⟨Or.inr ?_, Or.inl ⟨_, AS.set_same .., ?_⟩⟩⟩
       · intro q h1 h2
@@ -488,7 +529,7 @@ theorem safe_ompCompilerFlag (hc : CfgOK S c) (st : AS) (n : Nat) (hf : FreshFro
     intro _ s hs; subst s
     exact hf2
 
-theorem safe_loadCached (st : AS) : Safe S pid P (loadCached c) st (fun _ s => s = st) := by
+theorem safe_loadCached (st : AS) : Safe S pid P Rm (loadCached c) st (fun _ s => s = st) := by
   unfold loadCached
   refine safe_bind _ _ _ _ _ (safe_isFile st (k_final _)) ?_
   intro e s hs; subst s
@@ -509,7 +550,7 @@ theorem safe_loadCached (st : AS) : Safe S pid P (loadCached c) st (fun _ s => s
     · rfl
 
 theorem safe_serialBuild (hc : CfgOK S c) (st : AS) (n : Nat) (hf : FreshFrom c st n) :
-    Safe S pid (IsTok c) (serialBuild c n) st (fun _ _ => True) := by
+    Safe S pid (IsTok c) Rm (serialBuild c n) st (fun r _ => r = false → c.parseOk = false) := by
   unfold serialBuild
   refine safe_bind _ _ _ _ _ (safe_isFile st (k_final _)) ?_
   intro found s hs; subst s
@@ -533,7 +574,7 @@ theorem safe_serialBuild (hc : CfgOK S c) (st : AS) (n : Nat) (hf : FreshFrom c 
       intro _ s4 hf4
       have hn : s4 ((c.k "binary").withTok (c.toks (n + 7))) = none := hf4.at _ _ (Nat.le_refl _)
       refine safe_bind _ _ _ (fun _ _ => True) _ ?_ ?_
-      · refine safe_mono _ _ _ _ (safe_stageFile s4 _ _ true _ (k_final _) ?_) (fun _ _ _ => trivial)
+      · refine safe_mono _ _ _ _ (safe_stageFile s4 _ _ true _ (k_final _) ⟨_, rfl⟩ ?_) (fun _ _ _ => trivial)
         have hacc := acc_exec1 (S := S) (pid := pid) (st := s4) (src := c.k c.cppBase)
           (t := (c.k "binary").withTok (c.toks (n + 7))) (k_final _) rfl hn rfl
           (by rw [withTok_final _ _ (k_final _)]; exact hc.r_kbin)
@@ -547,19 +588,24 @@ theorem safe_serialBuild (hc : CfgOK S c) (st : AS) (n : Nat) (hf : FreshFrom c 
         intro _ s hs; subst s
         refine safe_bind _ _ _ _ _ (safe_op (acc_openRead (k_final _))) ?_
         intro ok s hs; subst s
-        cases ok <;> trivial
+        cases ok
+        · trivial
+        · intro h; cases h
     · simp only [hpo]
       by_cases hsil : c.silent = true
-      · simp only [hsil, if_true]; trivial
+      · simp only [hsil, if_true]
+        intro _
+        simpa using hpo
       · simp only [hsil]; trivial
   · simp only [if_true]
     refine safe_bind _ _ _ _ _ (safe_loadCached st) ?_
     intro _ s hs; subst s
-    trivial
+    intro h; cases h
 
 theorem FreshFrom_empty (c : Config) (n : Nat) : FreshFrom c AS.empty n := fun _ _ _ _ => rfl
 
-theorem safe_buildProg (hc : CfgOK S c) : Safe S pid (IsTok c) (buildProg c) AS.empty (fun _ _ => True) := by
+theorem safe_buildProg (hc : CfgOK S c) :
+    Safe S pid (IsTok c) (c.parseOk = false) (buildProg c) AS.empty (fun _ _ => True) := by
   unfold buildProg
   refine safe_bind _ _ _ _ _ (safe_applyDependencyHash AS.empty) ?_
   intro _ s hs; subst s
@@ -576,7 +622,7 @@ theorem safe_buildProg (hc : CfgOK S c) : Safe S pid (IsTok c) (buildProg c) AS.
     · simp only [hfs]
       exact FreshFrom_empty c 1
   · intro _ s1 hf1
-    refine safe_bind _ _ _ (fun _ _ => True) _ ?_ ?_
+    refine safe_bind _ _ _ (fun r _ => r = false → c.parseOk = false) _ ?_ ?_
     · by_cases hom : c.openmp = true
       · simp only [hom, if_true]
         refine safe_bind _ _ _ _ _ (safe_compilerVendor hc s1 1 hf1) ?_
@@ -586,10 +632,10 @@ theorem safe_buildProg (hc : CfgOK S c) : Safe S pid (IsTok c) (buildProg c) AS.
         exact safe_serialBuild hc s3 8 hf3
       · simp only [hom]
         exact safe_serialBuild hc s1 8 (hf1.mono (by omega))
-    · intro ok s _
+    · intro ok s hq
       cases ok
       · simp only [Bool.false_eq_true, if_false]
-        refine safe_bind _ _ _ _ _ (safe_op acc_rmrf) ?_
+        refine safe_bind _ _ _ _ _ (safe_op acc_rmrf (by simp [touchedOK]) (fun _ => hq rfl)) ?_
         intro _ s' _
         trivial
       · trivial
